@@ -24,6 +24,7 @@ func c05Heal(r *rng, id string) {
 		return
 	}
 	cl.net.latMin, cl.net.latMax = 0, 30*time.Millisecond
+	mon := cl.startMonitor()
 	cl.joinAll(200 * time.Millisecond)
 	time.Sleep(5 * time.Second)
 	// ---- fault phase ----
@@ -113,6 +114,10 @@ func c05Heal(r *rng, id string) {
 						seedN := cl.live()[0]
 						go nv.m.Join([]string{fmt.Sprintf("%s/%s", seedN.name, seedN.tr.addr)})
 						restarts = append(restarts, nv.name)
+						mon.mu.Lock()
+						mon.skip[nv.name] = true // restarted process: counter reset, outside the restart-free theorems
+						mon.skip[v.name] = true
+						mon.mu.Unlock()
 					}
 				}
 			}
@@ -249,9 +254,10 @@ func c05Heal(r *rng, id string) {
 			class = "not-converged"
 		}
 	}
+	inv := mon.verdict(cl.nodes)
 	cl.shutdownAll()
-	emit("C05 sim id=%s n=%d live=%d departed=%d restarts=%d connected=%d healat=%d settledms=%d class=%s detail=%s",
-		id, nn, len(live), len(departed), len(restarts), b2i(connected), healAt.Milliseconds(), settled.Milliseconds(), class, detail)
+	emit("C05 sim id=%s n=%d live=%d departed=%d restarts=%d connected=%d healat=%d settledms=%d inv=%s claims=%d class=%s detail=%s",
+		id, nn, len(live), len(departed), len(restarts), b2i(connected), healAt.Milliseconds(), settled.Milliseconds(), inv, mon.total, class, detail)
 }
 
 func TestC05(t *testing.T) {
